@@ -170,10 +170,20 @@ def convertCell (fd : FieldDef) (t : Str) : Cell :=
 /-- fields with a dtype (genfromtxt `usecols`) -/
 def kept (fields : List FieldDef) : List FieldDef := fields.filter (·.dtype ≠ .skip)
 
-/-- NumPy's `NameValidator` on a field name: blanks become `_`, punctuation is deleted -/
-def validName (n : String) : String :=
-  String.ofList ((n.toList.map fun c => if c = ' ' then '_' else c).filter
-    fun c => !("~!@#$%^&*()-=+~\\|]}[{';: /?.>,<".toList.contains c))
+/-- NumPy's `NameValidator.deletechars` ``~!@#$%^&*()-=+~\|]}[{';: /?.>,<`` as code points (the
+kernel compares `Nat` literals fast, `Char`s slowly) -/
+def deleteCodes : List Nat :=
+  [126, 33, 64, 35, 36, 37, 94, 38, 42, 40, 41, 45, 61, 43, 92, 124, 93, 125, 91, 123, 39, 59, 58, 32, 47, 63,
+   46, 62, 44, 60]
+
+def nameCodes (n : String) : List Nat := n.toList.map Char.toNat
+
+/-- NumPy's `NameValidator` on the code points of a field name: blanks become `_`, punctuation is
+deleted -/
+def validCodes (cs : List Nat) : List Nat :=
+  (cs.map fun k => if k = 32 then 95 else k).filter fun k => !deleteCodes.contains k
+
+def validName (n : String) : String := String.ofList ((validCodes (nameCodes n)).map Char.ofNat)
 
 abbrev Row := List (String × Cell)
 
